@@ -145,7 +145,7 @@ func init() {
 
 func init() {
 	Properties["C13"] = PropSpec{
-		Rules:       []Rule{Narrow, Orderings, OrderingsTyped, Keywords("SchemaValidator", schemaKeywords, "schema_ctor_calls"), Keywords("ParamValidator", simpleKeywords, "param_ctor_calls"), Keywords("HeaderValidator", simpleKeywords, "header_ctor_calls"), Keywords("itemsValidator", simpleKeywords, "items_ctor_calls"), KeywordPosition},
+		Rules:       []Rule{Narrow, Orderings, OrderingsTyped, KeywordPred, Keywords("SchemaValidator", schemaKeywords, "schema_ctor_calls"), Keywords("ParamValidator", simpleKeywords, "param_ctor_calls"), Keywords("HeaderValidator", simpleKeywords, "header_ctor_calls"), Keywords("itemsValidator", simpleKeywords, "items_ctor_calls"), KeywordPosition},
 		Explanation: "ORDERINGS: MaximumNativeType/MinimumNativeType/MultipleOfNativeType are evaluated by constant propagation (through reflect.ValueOf, the kind switches, the as* helpers, the exactness guards and the Int/Uint/float comparators) for every Go numeric carrier type × a grid of values × a grid of constraints in halves from -3.5 to 4.5 × exclusive on/off, and must return an error exactly when exact arithmetic says so (arithmetic folded on exact rationals: float rounding is not modelled); the Int/Uint/float comparators and Min/MaxItems, MultipleOfInt/Uint, RequiredNumber agree with their definitions on every ordering of a small grid. NARROW: every numeric ssa.Convert of the package is classified; one that can change the mathematical value (float→integer, signed↔unsigned, narrowing) must be dominated by an integrality test plus a range test of its operand (possibly packaged in a one-parameter predicate of the package, whose true-returning paths are inspected), or be unreachable for every Go numeric carrier type (abstract D-DYN runs from MaximumNativeType/MinimumNativeType/MultipleOfNativeType/IsValueValidAgainstRange/numberValidator.Validate over float32/64, int*, uint*: the as* helpers only take their value-preserving branch). The kind-specific reflect getters are legal for the kinds that reach them (D-DYN). json.Number: Int64() is selected exactly on Type.Contains(integer), Float64() on its negation, and both error edges add an error.",
 		NotDecided:  "Exactness of the float arithmetic itself (MultipleOf's division and IsFloat64AJSONInteger tolerance), values beyond ±2^53, decimal fractions.",
 		Assumptions: []string{"numbers within ±2^53 (C13), so integer→float64 is exact", "int is 64 bits wide", trustDeps},
@@ -204,7 +204,7 @@ func init() {
 func init() {
 	Properties["C16"] = PropSpec{
 		Rules: []Rule{Chain, EnumConvert, Keywords("ParamValidator", simpleKeywords, "param_ctor_calls"), Keywords("HeaderValidator", simpleKeywords, "header_ctor_calls"), Keywords("itemsValidator", simpleKeywords, "items_ctor_calls"), KeywordPosition, KeywordGuard,
-			Narrow, Orderings, OrderingsTyped, TypeTable, AppliesTable,
+			Narrow, Orderings, OrderingsTyped, TypeTable, AppliesTable, KeywordPred,
 			PanicInventory([]string{"NewParamValidator", "NewHeaderValidator", "(*ParamValidator).Validate", "(*HeaderValidator).Validate"}, []DynEntry{
 				{Func: "(*ParamValidator).Validate", DataArg: 1}, {Func: "(*HeaderValidator).Validate", DataArg: 1}, {Func: "(*itemsValidator).Validate", DataArg: 2},
 			}, goTypedDomain, "typed Go values: nil, bool, string and named strings, every integer and float width, json.Number, slices", "helpers")},
